@@ -830,6 +830,46 @@ impl<'a> Ctx<'a> {
         for (d, j) in self.obs.docs.iter().zip(judgements.iter()) {
             let main = &self.sc.docs[d.doc];
             if self.script_mode(main) {
+                // single-script mode: one capture for the whole script, handed out with the
+                // first test case - the beginning of what all commands wrote, in order
+                let list = exec_list(self.sc, main);
+                let Some(to) = d.tests.first() else { continue };
+                let Some(raw) = &to.raw else { continue };
+                if !matches!(raw.exit, ExitObs::Timeout { .. }) || list.is_empty() {
+                    continue;
+                }
+                let Some(pid) = j.tests.first().and_then(|t| t.pid) else { continue };
+                if !self.facts.procs[pid as usize].faults.is_empty() {
+                    continue;
+                }
+                let eff = self.sc.effective(main, list[0].0, list[0].1);
+                if eff.strip_ansi {
+                    continue;
+                }
+                let (mut eo, mut ee) = (vec![], vec![]);
+                for (_, t) in &list {
+                    let (o, e) = expected_streams(&eff, &self.prog(&t.nonce));
+                    eo.extend(o);
+                    ee.extend(e);
+                }
+                let is_prefix = |got: &[u8], want: &[u8]| {
+                    let g = if !eff.keep_crlf && got.last() == Some(&b'\r') { &got[..got.len() - 1] } else { got };
+                    want.len() >= g.len() && &want[..g.len()] == g
+                };
+                if !is_prefix(&raw.stdout.0, &eo) || !is_prefix(&raw.stderr.0, &ee) {
+                    out.push(v(
+                        "C13",
+                        "partial-capture-not-a-prefix",
+                        Some(&to.nonce),
+                        format!(
+                            "the script was aborted; captured stdout {:?} stderr {:?} is not the beginning of what its commands wrote: stdout {:?} stderr {:?}",
+                            raw.stdout,
+                            raw.stderr,
+                            Bytes(eo.iter().take(200).cloned().collect()),
+                            Bytes(ee.iter().take(200).cloned().collect())
+                        ),
+                    ));
+                }
                 continue;
             }
             let list = exec_list(self.sc, main);
@@ -1112,6 +1152,31 @@ impl<'a> Ctx<'a> {
                     // (a `wait` is not interruptible: when the limit had already expired by the time
                     // scrut started to communicate, stopping at once is all that can be asked)
                     if let Some(a) = a_max.map(|a| a.max(cb_t)) {
+                        // The time scrut spends READING is no excuse for being late: a command that
+                        // is still running - and still writing - when its limit expires has to be
+                        // cut off, however busy that keeps scrut. Only a stall of scrut itself (and
+                        // a handful of system calls) is beyond its control.
+                        let stalled: u64 = self.facts.stalls.iter().filter(|(_, st, _)| *st >= cb_t && *st <= x).map(|s| s.2).sum();
+                        let strict = 20 * MS + stalled + 64 * self.sc.sim.swarm.syscall_cost_ns;
+                        let busy_until = p.exit.as_ref().map(|e| e.0).unwrap_or(x);
+                        if res == "ok" && x > a.saturating_add(strict) && busy_until > a.saturating_add(strict) && x <= a.saturating_add(slack) {
+                            out.push(v(
+                                "C14",
+                                "ran-past-limit",
+                                Some(&tj.nonce),
+                                format!(
+                                    "test {} was still running (until t={}ns) and scrut still reading (until t={}ns) {}ns after its limit expired (t0={}, comm_begin={}, per-test={:?}, document={:?}); a limit applies whether or not there is output to read",
+                                    tj.nonce,
+                                    busy_until,
+                                    x,
+                                    x - a,
+                                    t0,
+                                    cb_t,
+                                    t_i,
+                                    dlimit
+                                ),
+                            ));
+                        }
                         if x > a.saturating_add(slack) {
                             out.push(v(
                                 "C14",
